@@ -35,6 +35,9 @@ import RattrProofs.Lemmas.C06Blacklist
 import RattrProofs.Lemmas.C06Local
 import RattrModel.Pipeline2
 import RattrProofs.Lemmas.Pipeline2
+import RattrProofs.Lemmas.C06Layout
+import RattrProofs.Lemmas.C06Star
+import RattrProofs.Lemmas.C06Walk
 
 namespace Rattr.C06
 open Rattr Rattr.Strs Rattr.Resolve Rattr.Spec.ImportEquiv Rattr.Blacklist Rattr.ResolveLocal
@@ -1700,5 +1703,666 @@ example :
       some ("H".toList, .target 4, .target 1) := by
   refine ⟨by decide +kernel, by decide +kernel, by decide +kernel, by decide +kernel, by decide +kernel,
     by decide +kernel, by decide +kernel, by decide +kernel⟩
+
+end Rattr.C06
+
+
+/-! ## Round 3 (a) — WHICH FILE a followed module name denotes
+
+`find_module_in_path` (`RattrModel/Locator.lean`, the model C13 proves its round trips about) decides
+package-vs-module by `is_dir()`. C06 needs of it: the file rattr follows for a module name is the file
+Python imports — in particular when a package `M/__init__.py` and a stale module `M.py` lie side by
+side (Python: the package), and when a plain directory `M/` lies next to `M.py` (Python: the module).
+Tie B: stage `locator` of `py/props/c06.py` — the real `find_module_name_and_spec` vs
+`Locator.findModuleNameAndSpec` vs `Spec.firstMatch` vs CPython's `importlib.util.find_spec` on every
+module name of every generated split project. -/
+
+namespace Rattr.C06
+open Rattr Rattr.Locator Rattr.C06L
+
+/-- the directory of that name, if there is one, is a regular package (holds an `__init__.py`) -/
+def dirIsPackage (files : Files) (name : Dotted) : Bool :=
+  !dirExists files name || files.contains (name ++ [initPy])
+
+/-- **`C06_package_shadows_module`.** Whenever `M/__init__.py` exists, `find_module_in_path` answers
+it — whatever else exists, a module file `M.py` of the same name included: a stale module is never
+followed in place of the package. For ALL file sets and ALL names. -/
+theorem C06_package_shadows_module (files : Files) (name : Dotted) (hn : name ≠ [[]])
+    (hp : files.contains (partsOf name ++ [initPy]) = true) :
+    findModuleInPath files name = some (partsOf name ++ [initPy]) := by
+  have hd := dirExists_of_init files (partsOf name) hp
+  unfold partsOf at hd hp
+  unfold findModuleInPath partsOf
+  simp only [hn, if_false, hd, if_true, hp]
+
+/-- **`C06_module_file_only_without_directory`.** The module file `M.py` is answered only when NO
+directory `M` exists (this is where a plain directory hides the module, `C06_cex_plain_directory_
+hides_module`). -/
+theorem C06_module_file_only_without_directory (files : Files) (name : Dotted) (r : Path)
+    (h : findModuleInPath files name = some r) :
+    (dirExists files (partsOf name) = true ∧ r = partsOf name ++ [initPy]) ∨
+    (dirExists files (partsOf name) = false ∧ r = withSuffixPy (partsOf name)) := by
+  unfold findModuleInPath at h
+  unfold partsOf
+  by_cases h1 : name = [[]]
+  · rw [if_pos h1] at h; cases h
+  · rw [if_neg h1] at h
+    dsimp only at h
+    generalize (name.filter fun c => decide (c ≠ [])) = parts at h ⊢
+    by_cases hd : dirExists files parts = true
+    · rw [if_pos hd] at h
+      left
+      refine ⟨hd, ?_⟩
+      split at h
+      · exact (Option.some.inj h).symm
+      · cases h
+    · rw [if_neg hd] at h
+      right
+      refine ⟨by simpa using hd, ?_⟩
+      split at h
+      · exact (Option.some.inj h).symm
+      · cases h
+
+/-- **`C06_followed_file_is_imported_file`.** For a well-formed name whose directory, if any, is a
+regular package: `find_module_in_path` answers exactly the file Python's path finder picks in that
+path entry (`Spec.matchInRoot`: the package first, then the module file). The hypothesis is about
+THIS name only (C13's `findModuleInPath_eq_matchInRoot` asks it of every directory of the root). -/
+theorem C06_followed_file_is_imported_file (files : Files) (name : Dotted) (hne : name ≠ []) (hmem : [] ∉ name)
+    (hd : dirIsPackage files name = true) :
+    findModuleInPath files name = Spec.matchInRoot files name := by
+  have h1 := ne_single_nil_of_wf name hmem
+  have hfilter : (name.filter fun c => decide (c ≠ [])) = name := partsOf_wf name hmem
+  unfold findModuleInPath Spec.matchInRoot
+  simp only [h1, if_false, hfilter]
+  have hpk : Spec.pkgFile name = name ++ [initPy] := rfl
+  by_cases hdir : dirExists files name = true
+  · have hc : files.contains (name ++ [initPy]) = true := by
+      simpa [dirIsPackage, hdir] using hd
+    have hm : name ++ [initPy] ∈ files := List.contains_iff_mem.mp hc
+    simp [hdir, hpk, hm]
+  · have hnp : files.contains (name ++ [initPy]) = false := by
+      cases hcon : files.contains (name ++ [initPy]) with
+      | false => rfl
+      | true => exact absurd (dirExists_of_init files name hcon) hdir
+    simp only [hdir, Bool.false_eq_true, if_false, hpk, hnp, withSuffixPy_eq_modFile name hne]
+
+/-- **`C06_stale_module_never_followed`.** With `M/__init__.py` present the answer is not the module
+file `M.py` (the two are different files), for every well-formed name. -/
+theorem C06_stale_module_never_followed (files : Files) (name : Dotted) (hne : name ≠ []) (hmem : [] ∉ name)
+    (hp : files.contains (name ++ [initPy]) = true) :
+    findModuleInPath files name = some (name ++ [initPy]) ∧
+    findModuleInPath files name ≠ some (withSuffixPy name) ∧
+    findModuleInPath files name = Spec.matchInRoot files name := by
+  have hpo := partsOf_wf name hmem
+  have hsh := C06_package_shadows_module files name (ne_single_nil_of_wf name hmem) (by rw [hpo]; exact hp)
+  rw [hpo] at hsh
+  refine ⟨hsh, ?_, ?_⟩
+  · rw [hsh, withSuffixPy_eq_modFile name hne]
+    intro e
+    exact modFile_ne_pkgFile name (Option.some.inj e).symm
+  · exact C06_followed_file_is_imported_file files name hne hmem
+      (by simp [dirIsPackage, List.contains_iff_mem.mp hp])
+
+private def sl (x : String) : Str := x.toList
+
+/-- a package next to a stale module of the same name (top level and inside a package): the
+package, as Python. TEST on literals (the general statement is `C06_stale_module_never_followed`). -/
+theorem C06_stale_module_next_to_package_test :
+    findModuleInPath [[sl "m.py"], [sl "m", sl "__init__.py"], [sl "m", sl "impl.py"]] [sl "m"]
+      = some [sl "m", sl "__init__.py"]
+    ∧ Spec.matchInRoot [[sl "m.py"], [sl "m", sl "__init__.py"], [sl "m", sl "impl.py"]] [sl "m"]
+      = some [sl "m", sl "__init__.py"]
+    ∧ findModuleInPath [[sl "k", sl "__init__.py"], [sl "k", sl "m.py"], [sl "k", sl "m", sl "__init__.py"]] [sl "k", sl "m"]
+      = some [sl "k", sl "m", sl "__init__.py"] := by
+  decide
+
+/-- `m.py` next to a plain directory `m/` (no `__init__.py`): nothing is located, Python imports
+`m.py` — the known finding `module-next-to-plain-directory-not-imported:*` (root cause shared with
+C13's `module-shadowed-by-non-package-directory`). -/
+theorem C06_cex_plain_directory_hides_module :
+    findModuleInPath [[sl "m.py"], [sl "m", sl "notes.txt"]] [sl "m"] = none
+    ∧ Spec.matchInRoot [[sl "m.py"], [sl "m", sl "notes.txt"]] [sl "m"] = some [sl "m.py"]
+    ∧ dirIsPackage [[sl "m.py"], [sl "m", sl "notes.txt"]] [sl "m"] = false := by
+  decide
+
+/-- the hypotheses of `C06_followed_file_is_imported_file` / `C06_stale_module_never_followed` are
+satisfiable by a layout in which both files exist -/
+example : findModuleInPath [[sl "m.py"], [sl "m", sl "__init__.py"]] [sl "m"] = Spec.matchInRoot [[sl "m.py"], [sl "m", sl "__init__.py"]] [sl "m"] :=
+  (C06_stale_module_never_followed _ [sl "m"] (by decide) (by decide) (by decide)).2.2
+
+/-! ### the spec side: which of two same-named files is "the module" -/
+
+open Rattr.Spec.ImportEquiv in
+/-- **`C06_spec_prefers_package`.** `Spec.ImportEquiv.findModule` (Python's binding spec) picks a
+PACKAGE of that name whenever the project lists one, wherever it stands in the list — a stale
+module file listed first included. -/
+theorem C06_spec_prefers_package (p : Project) (m : Str) (x : PyModule) (hx : x ∈ p) (hn : x.name = m)
+    (hp : x.isPkg = true) : ∃ y, findModule p m = some y ∧ y.name = m ∧ y.isPkg = true := by
+  unfold findModule
+  cases hf : p.find? (fun x => decide (x.name = m) && x.isPkg) with
+  | some y =>
+    have := List.find?_some hf
+    simp only [Bool.and_eq_true, decide_eq_true_eq] at this
+    exact ⟨y, rfl, this.1, this.2⟩
+  | none =>
+    have := List.find?_eq_none.mp hf x hx
+    simp [hn, hp] at this
+
+end Rattr.C06
+
+
+/-! ## Round 3 (b) — star re-export chains that cross package levels
+
+`StarChain.expandStars` (`RattrModel/StarChain.lean`) is `Context.expand_starred_imports` as a walk over
+files: a star import found INSIDE a star-imported file is resolved against that file (`StarFile.fid` —
+the code compiles its root context under `enter_file(starred.origin)`), not against the file holding
+the outer `import *`. Tie B: stage `star_expand` of `py/props/c06.py` (the symbols the real expansion
+appends, for every file with a star import of every generated split project, vs this model — the nested
+qualified names are DERIVED here, by `Resolve.importSymbol` / `Locator.deriveAbs`). -/
+
+namespace Rattr.C06
+open Rattr Rattr.Strs Rattr.Resolve Rattr.StarChain Rattr.C06S
+
+/-- **`C06_star_inner_statement_resolved_against_inner_file`.** `from .x import *` written in
+`pkg/sub/__init__.py` names `pkg.sub.x`; the same text resolved against `pkg/__init__.py` (the file of
+the OUTER star import) would name `pkg.x` — a different module, for all names. -/
+theorem C06_star_inner_statement_resolved_against_inner_file (pkg sub x : Str) (ns : List Str) (hx : '.' ∉ x) :
+    starQuals ⟨⟨pkg ++ '.' :: sub, true⟩, ns, [.relStar 1 (some x)]⟩ = [(pkg ++ '.' :: sub) ++ '.' :: x] ∧
+    starQuals ⟨⟨pkg, true⟩, ns, [.relStar 1 (some x)]⟩ = [pkg ++ '.' :: x] ∧
+    (pkg ++ '.' :: sub) ++ '.' :: x ≠ pkg ++ '.' :: x := by
+  refine ⟨by simp [starQuals, importSymbol, absName_init_level1 _ x hx],
+          by simp [starQuals, importSymbol, absName_init_level1 _ x hx], ?_⟩
+  intro e
+  have hl := congrArg List.length e
+  simp at hl
+  omega
+
+theorem expandStars_step (files : Files) (fuel : Nat) (q : Str) (rest seen : List Str) (ctx : MCtx) (sf : StarFile)
+    (hq : seen.contains q = false) (hf : Dict.get? files q = some sf) :
+    expandStars files (fuel + 1) (q :: rest) seen ctx =
+      expandStars files fuel (rest ++ (starQuals sf).filter fun x => !(q :: seen).contains x) (q :: seen)
+        (expandStar ctx q sf.names) := by
+  conv => lhs; unfold expandStars
+  rw [if_neg (by rw [hq]; simp)]
+  simp only [hf]
+
+/-- **`C06_star_chain_two_levels`.** `pkg/__init__.py: from .sub import *`, `pkg/sub/__init__.py: from
+.x import *`, `pkg/sub/x.py` without star imports: the expansion of `pkg/__init__`'s root context is
+the one-level expansion by `pkg.sub`'s names followed by the one-level expansion by the names of
+`pkg.sub.x` — the module the INNER package's statement denotes — whatever else the table holds (a
+same-named `pkg.x` included). For all names, all declared-name lists, all tables. -/
+theorem C06_star_chain_two_levels (files : Files) (pkg sub x : Str) (names0 names1 names2 : List Str)
+    (ctx0 : MCtx) (fuel : Nat) (hsub : '.' ∉ sub) (hx : '.' ∉ x)
+    (h1 : Dict.get? files (pkg ++ '.' :: sub) =
+      some ⟨⟨pkg ++ '.' :: sub, true⟩, names1, [.relStar 1 (some x)]⟩)
+    (h2 : Dict.get? files ((pkg ++ '.' :: sub) ++ '.' :: x) =
+      some ⟨⟨(pkg ++ '.' :: sub) ++ '.' :: x, false⟩, names2, []⟩) :
+    expandFile files (fuel + 3) ⟨⟨pkg, true⟩, names0, [.relStar 1 (some sub)]⟩ ctx0 =
+      expandStar (expandStar ctx0 (pkg ++ '.' :: sub) names1) ((pkg ++ '.' :: sub) ++ '.' :: x) names2 := by
+  have hne : (pkg ++ '.' :: sub) ++ '.' :: x ≠ pkg ++ '.' :: sub := append_dot_ne _ _
+  have hq0 : starQuals ⟨⟨pkg, true⟩, names0, [.relStar 1 (some sub)]⟩ = [pkg ++ '.' :: sub] := by
+    simp [starQuals, importSymbol, absName_init_level1 _ sub hsub]
+  have hq1 : starQuals ⟨⟨pkg ++ '.' :: sub, true⟩, names1, [.relStar 1 (some x)]⟩ = [(pkg ++ '.' :: sub) ++ '.' :: x] := by
+    simp [starQuals, importSymbol, absName_init_level1 _ x hx]
+  unfold expandFile
+  rw [hq0, expandStars_step files (fuel + 2) _ [] [] ctx0 _ (by simp) h1, hq1]
+  have hfilt : ([] ++ List.filter (fun y => !([pkg ++ '.' :: sub] : List Str).contains y) [(pkg ++ '.' :: sub) ++ '.' :: x])
+      = [(pkg ++ '.' :: sub) ++ '.' :: x] := by
+    simp [hne]
+  simp only [] at hfilt ⊢
+  rw [hfilt, expandStars_step files (fuel + 1) _ [] [pkg ++ '.' :: sub] _ _ (by simp [hne]) h2]
+  simp [starQuals, expandStars]
+
+/-- **`C06_star_chain_reexport`** — the C06 statement for the two-level star chain: `from pkg import f`
+where `pkg/__init__` star-imports `pkg.sub`, whose `__init__` star-imports `pkg.sub.x`, which defines
+`f` (and `pkg.sub`'s own root context does not declare `f`): the call resolves to the definition in
+`pkg.sub.x`. Nothing is assumed about a module `pkg.x`: a same-named decoy at the outer level cannot
+change the answer. -/
+theorem C06_star_chain_reexport (w : World) (files : Files) (pkg sub x f : Str) (names0 names1 names2 : List Str)
+    (ctx0 ctxX : MCtx) (s : MSym) (fuel fuel' : Nat) (hsub : '.' ∉ sub) (hx : '.' ∉ x) (hf : Ident f)
+    (h1 : Dict.get? files (pkg ++ '.' :: sub) =
+      some ⟨⟨pkg ++ '.' :: sub, true⟩, names1, [.relStar 1 (some x)]⟩)
+    (h2 : Dict.get? files ((pkg ++ '.' :: sub) ++ '.' :: x) =
+      some ⟨⟨(pkg ++ '.' :: sub) ++ '.' :: x, false⟩, names2, []⟩)
+    (hmem : f ∈ names2) (hnot : f ∉ names1) (hfresh : lookupSym ctx0 f = none)
+    (hP : Provides w pkg (pkg ++ '.' :: f)
+      (expandFile files (fuel' + 3) ⟨⟨pkg, true⟩, names0, [.relStar 1 (some sub)]⟩ ctx0))
+    (hQ : Provides w ((pkg ++ '.' :: sub) ++ '.' :: x) (((pkg ++ '.' :: sub) ++ '.' :: x) ++ '.' :: f) ctxX)
+    (hs : lookupSym ctxX f = some s) (hd : IsDef s f) :
+    resolveImport w (fuel + 2) ⟨f, pkg ++ '.' :: f⟩ = .found ((pkg ++ '.' :: sub) ++ '.' :: x) s := by
+  rw [C06_star_chain_two_levels files pkg sub x names0 names1 names2 ctx0 fuel' hsub hx h1 h2] at hP
+  have hstar : '*' ∉ f := hf.ne '*' (by decide)
+  exact C06_star_reexport w pkg _ f (expandStar ctx0 (pkg ++ '.' :: sub) names1) ctxX names2 s fuel hf hmem
+    (expandStar_miss _ f hstar names1 ctx0 hnot hfresh) hP hQ hs hd
+
+/-- the layout of seeded change C06-m8 with the decoy `pkg.util`: TEST on literals (kernel evaluation)
+of the whole chain — the table, the walk, the module table, `resolve_import`. -/
+private def st (x : String) : Str := x.toList
+private def filesDecoy : Files :=
+  [(st "pkg.sub", ⟨⟨st "pkg.sub", true⟩, [st "*"], [.relStar 1 (some (st "util"))]⟩),
+   (st "pkg.util", ⟨⟨st "pkg.util", false⟩, [st "helper"], []⟩),
+   (st "pkg.sub.util", ⟨⟨st "pkg.sub.util", false⟩, [st "helper"], []⟩)]
+private def ctxPkgDecoy : MCtx :=
+  expandFile filesDecoy 8 ⟨⟨st "pkg", true⟩, [st "*"], [.relStar 1 (some (st "sub"))]⟩ []
+private def wDecoy : World where
+  existing := [st "pkg", st "pkg.sub", st "pkg.util", st "pkg.sub.util"]
+  ignored := []
+  irs := [(st "pkg", ctxPkgDecoy), (st "pkg.sub", []), (st "pkg.util", [.func (st "helper") true]),
+          (st "pkg.sub.util", [.func (st "helper") true])]
+
+theorem C06_star_chain_decoy_test :
+    lookupSym ctxPkgDecoy (st "helper") = some (.imp (st "helper") (st "pkg.sub.util.helper"))
+    ∧ resolveImport wDecoy 4 ⟨st "helper", st "pkg.helper"⟩ = .found (st "pkg.sub.util") (.func (st "helper") true) := by
+  decide
+
+/-- the hypotheses of `C06_star_chain_reexport` are satisfiable (the decoy project) -/
+example : resolveImport wDecoy 2 ⟨st "helper", st "pkg.helper"⟩ = .found (st "pkg.sub.util") (.func (st "helper") true) :=
+  C06_star_chain_reexport wDecoy filesDecoy (st "pkg") (st "sub") (st "util") (st "helper") [st "*"] [st "*"]
+    [st "helper"] [] [.func (st "helper") true] _ 0 5 (by decide) (by decide) (by decide) (by decide) (by decide)
+    (by decide) (by decide) (by decide) (by decide) (by decide) (by decide) (.inl rfl)
+
+end Rattr.C06
+
+
+/-! ## Round 3 (c) — the multi-file pipeline on the new layouts; the target under an absolute path
+
+`Pipeline2` changes of round 3: the import walk's completeness is a theorem (`pipeline2_walk_complete`);
+a target given by its ABSOLUTE path that an import cycle leads back to is a second FileIr of the SAME
+file (`sameFile` / `canonH`: `location.defined_in` is the path the file was entered under) — no longer
+outside the fragment: one equality class of call records per (path, Call symbol), resolution by path.
+Tie B: the `pipeline2` stage runs 40 % of its generated projects (and three curated ones) with the
+target named by its absolute path. -/
+
+namespace Rattr.C06
+open Rattr Rattr.Results Rattr.FnA Rattr.Pipeline2 Rattr.C06W
+open Rattr.Pipeline (ResultsDoc)
+open Rattr.FileA (Outcome)
+
+/-- **`pipeline2_walk_complete`** — `parse_and_analyse_imports` is complete. If the walk ends, every
+import it may follow (known module, a file, no ladder rung) that stands in the queue — at ANY
+iteration: the queue is extended by the imports of every file that is analysed — has its module name
+among the keys of `import_irs`; keys are never lost. `seen` starts empty, so this includes an import
+that leads back to the TARGET's own file, whatever path the target was named by (seeded C06-m9 adds a
+rung `origin == target → continue` and loses that key: `resolve_import` then raises `ImportError`).
+Hypothesis: the locator facts name one module per file. -/
+theorem pipeline2_walk_complete (P : Project) (hinj : OriginInj P) (fuel : Nat) (queue : List Sym)
+    (seen : List Str) (irs : List AFile) (ds : List Diag) (irs' : List AFile) (ds' : List Diag)
+    (h : importLoop P fuel queue seen irs ds = .ok (irs', ds')) (hsk : SeenKeyed P seen irs) :
+    (∀ k ∈ keysOf irs, k ∈ keysOf irs') ∧
+    ∀ i ∈ queue, ∀ name o, Followable P i name o → name ∈ keysOf irs' :=
+  importLoop_keys_complete P hinj fuel queue seen irs ds irs' ds' h hsk
+
+/-- **`pipeline2_import_irs_complete`** — for the run: after `parse_and_analyse_file`, every followable
+`Import` symbol of the target's (star-expanded) root context is a key of `import_irs`. -/
+theorem pipeline2_import_irs_complete (P : Project) (hinj : OriginInj P) {t : AFile} {irs : List AFile}
+    {ds : List Diag} (h : analyseAll P = .ok (t, irs, ds)) :
+    ∃ r, rootOf P P.target = .ok r ∧
+      ∀ i ∈ importsOf r.ctx, ∀ name o, Followable P i name o → name ∈ keysOf irs := by
+  unfold analyseAll at h
+  cases hr : rootOf P P.target with
+  | fatal r d => simp [hr] at h
+  | crash r e => simp [hr] at h
+  | ok r =>
+    simp only [hr] at h
+    cases hl : importLoop P (P.files.length + 1) (importsOf r.ctx) [] [] r.diags with
+    | fatal a b => simp [hl] at h
+    | crash e => simp [hl] at h
+    | ok x =>
+      obtain ⟨irs0, ds0⟩ := x
+      simp only [hl] at h
+      cases ha : FileA.analyseWith P.env (mnOf P.target) (factsOf P P.target) r.ctx P.target.body with
+      | fatal a b => simp [ha] at h
+      | crash a e => simp [ha] at h
+      | ok s =>
+        simp only [ha, Outcome.ok.injEq, Prod.mk.injEq] at h
+        obtain ⟨_, e, _⟩ := h
+        subst e
+        exact ⟨r, rfl, (importLoop_keys_complete P hinj _ _ [] [] _ _ _ hl
+          (fun _ _ _ _ ho => by cases ho)).2⟩
+
+/-- **`pipeline2_same_path_one_file`** — `find_call_target_and_ir` cannot tell two FileIrs of one path
+apart: a call held by file `h` resolves exactly as it does from the first FileIr analysed under the
+same path (`__is_defined_in`, `__resolve_real_class_target` and `derive_module_name_from_path` read the
+PATH only). For every project and every list of analysed files. -/
+theorem pipeline2_same_path_one_file (P : Project) (fs : List AFile) (h : Nat) (c : CallSym) :
+    resolveCall2 P fs (canonH fs h) c = resolveCall2 P fs h c :=
+  resolveCall2_canonH P fs h c
+
+/-- **`pipeline2_same_path_same_class`** — and `make_target_ir_call_tree`'s `seen` cannot either: the
+representative of a file exists, cannot be told apart from it, and the call record of a Call symbol
+is numbered there — so two FileIrs of one path put equal Call symbols into ONE equality class. -/
+theorem pipeline2_same_path_same_class (fs : List AFile) (h : Nat) (f : AFile) (c : CallSym)
+    (hf : fs[h]? = some f) :
+    ∃ g, fs[canonH fs h]? = some g ∧ g.origin = f.origin ∧ Pipeline.allCalls g.ir = Pipeline.allCalls f.ir ∧
+      (callRec2 fs h c).cid = cidBase fs (canonH fs h) + Pipeline.cidOf (Pipeline.allCalls g.ir) c := by
+  obtain ⟨g, hg, hs⟩ := canonH_spec hf
+  refine ⟨g, hg, (sameFile_iff.mp hs).1, (sameFile_iff.mp hs).2.2, ?_⟩
+  simp [callRec2, callsAt, hg]
+
+/-! ### concrete projects (rendered from real source trees by `py/tools/lean_project.py`) -/
+
+/-- seeded C06-m8's layout: `pkg/__init__: from .sub import *`, `pkg/sub/__init__: from .util import *`,
+`helper` defined in `pkg/sub/util.py` AND (differently) in the decoy `pkg/util.py` -/
+def proj_starChain : Project :=
+  { env := envE, builtins := ["print".toList],
+    mods :=
+    [("pkg".toList, ⟨false, true, true⟩),
+     ("pkg.*".toList, ⟨false, true, false⟩),
+     ("pkg.helper".toList, ⟨false, true, false⟩),
+     ("pkg.helper.*".toList, ⟨false, true, false⟩),
+     ("pkg.sub".toList, ⟨false, true, true⟩),
+     ("pkg.sub.*".toList, ⟨false, true, false⟩),
+     ("pkg.sub.*.*".toList, ⟨false, true, false⟩),
+     ("pkg.sub.util".toList, ⟨false, true, true⟩),
+     ("pkg.sub.util.*".toList, ⟨false, true, false⟩),
+     ("pkg.sub.util.*.*".toList, ⟨false, true, false⟩),
+     ("pkg.sub.util.helper".toList, ⟨false, true, false⟩),
+     ("pkg.sub.util.helper.*".toList, ⟨false, true, false⟩)],
+    quals :=
+    [("pkg".toList, { module := (some "pkg".toList), origin := (some "/proj/pkg/__init__.py".toList), pySource := true, builtinLoader := false, blacklisted := false, inPip := false, inStdlib := false }),
+     ("pkg.*".toList, { module := (some "pkg".toList), origin := (some "/proj/pkg/__init__.py".toList), pySource := true, builtinLoader := false, blacklisted := false, inPip := false, inStdlib := false }),
+     ("pkg.helper".toList, { module := (some "pkg".toList), origin := (some "/proj/pkg/__init__.py".toList), pySource := true, builtinLoader := false, blacklisted := false, inPip := false, inStdlib := false }),
+     ("pkg.helper.*".toList, { module := (some "pkg".toList), origin := (some "/proj/pkg/__init__.py".toList), pySource := true, builtinLoader := false, blacklisted := false, inPip := false, inStdlib := false }),
+     ("pkg.sub".toList, { module := (some "pkg.sub".toList), origin := (some "/proj/pkg/sub/__init__.py".toList), pySource := true, builtinLoader := false, blacklisted := false, inPip := false, inStdlib := false }),
+     ("pkg.sub.*".toList, { module := (some "pkg.sub".toList), origin := (some "/proj/pkg/sub/__init__.py".toList), pySource := true, builtinLoader := false, blacklisted := false, inPip := false, inStdlib := false }),
+     ("pkg.sub.*.*".toList, { module := (some "pkg.sub".toList), origin := (some "/proj/pkg/sub/__init__.py".toList), pySource := true, builtinLoader := false, blacklisted := false, inPip := false, inStdlib := false }),
+     ("pkg.sub.util".toList, { module := (some "pkg.sub.util".toList), origin := (some "/proj/pkg/sub/util.py".toList), pySource := true, builtinLoader := false, blacklisted := false, inPip := false, inStdlib := false }),
+     ("pkg.sub.util.*".toList, { module := (some "pkg.sub.util".toList), origin := (some "/proj/pkg/sub/util.py".toList), pySource := true, builtinLoader := false, blacklisted := false, inPip := false, inStdlib := false }),
+     ("pkg.sub.util.*.*".toList, { module := (some "pkg.sub.util".toList), origin := (some "/proj/pkg/sub/util.py".toList), pySource := true, builtinLoader := false, blacklisted := false, inPip := false, inStdlib := false }),
+     ("pkg.sub.util.helper".toList, { module := (some "pkg.sub.util".toList), origin := (some "/proj/pkg/sub/util.py".toList), pySource := true, builtinLoader := false, blacklisted := false, inPip := false, inStdlib := false }),
+     ("pkg.sub.util.helper.*".toList, { module := (some "pkg.sub.util".toList), origin := (some "/proj/pkg/sub/util.py".toList), pySource := true, builtinLoader := false, blacklisted := false, inPip := false, inStdlib := false })],
+    excluded := [],
+    target :=
+    { origin := "target.py".toList, derived := (some "target".toList), isInit := false,
+      body :=
+      [.importFrom (some "pkg".toList) 0 [⟨"helper".toList, none⟩] "".toList false true,
+     .funcDef "caller".toList ⟨[], ["o".toList], none, [], none⟩
+      [(.ret [(.call (.name "helper".toList .load) [(.name "o".toList .load)] [] [])])]
+      [] false] },
+    files :=
+  [{ origin := "/proj/pkg/__init__.py".toList, derived := (some "pkg".toList), isInit := true,
+      body :=
+      [.importFrom (some "sub".toList) 1 [⟨"*".toList, none⟩] "pkg.sub".toList true true] },
+   { origin := "/proj/pkg/sub/__init__.py".toList, derived := (some "pkg.sub".toList), isInit := true,
+      body :=
+      [.importFrom (some "util".toList) 1 [⟨"*".toList, none⟩] "pkg.sub.util".toList true true] },
+   { origin := "/proj/pkg/sub/util.py".toList, derived := (some "pkg.sub.util".toList), isInit := false,
+      body :=
+      [.funcDef "helper".toList ⟨[], ["x".toList], none, [], none⟩
+      [(.ret [(.attr (.name "x".toList .load) "sub_util".toList .load)])]
+      [] false] }] }
+
+def proj_starChainDoc : ResultsDoc :=
+  [("caller".toList, ⟨["o".toList, "o.sub_util".toList], [], [], ["helper()".toList]⟩)]
+
+/-- seeded C06-m7's layout: a stale `m.py` next to the package `m/` (`m/__init__: from .impl import f`);
+the locator facts (from the real locator) name `m/__init__.py` -/
+def proj_staleTwin : Project :=
+  { env := envE, builtins := ["print".toList],
+    mods :=
+    [("m".toList, ⟨false, true, true⟩),
+     ("m.*".toList, ⟨false, true, false⟩),
+     ("m.f".toList, ⟨false, true, false⟩),
+     ("m.f.*".toList, ⟨false, true, false⟩),
+     ("m.impl".toList, ⟨false, true, true⟩),
+     ("m.impl.*".toList, ⟨false, true, false⟩),
+     ("m.impl.f".toList, ⟨false, true, false⟩),
+     ("m.impl.f.*".toList, ⟨false, true, false⟩)],
+    quals :=
+    [("m".toList, { module := (some "m".toList), origin := (some "/proj/m/__init__.py".toList), pySource := true, builtinLoader := false, blacklisted := false, inPip := false, inStdlib := false }),
+     ("m.*".toList, { module := (some "m".toList), origin := (some "/proj/m/__init__.py".toList), pySource := true, builtinLoader := false, blacklisted := false, inPip := false, inStdlib := false }),
+     ("m.f".toList, { module := (some "m".toList), origin := (some "/proj/m/__init__.py".toList), pySource := true, builtinLoader := false, blacklisted := false, inPip := false, inStdlib := false }),
+     ("m.f.*".toList, { module := (some "m".toList), origin := (some "/proj/m/__init__.py".toList), pySource := true, builtinLoader := false, blacklisted := false, inPip := false, inStdlib := false }),
+     ("m.impl".toList, { module := (some "m.impl".toList), origin := (some "/proj/m/impl.py".toList), pySource := true, builtinLoader := false, blacklisted := false, inPip := false, inStdlib := false }),
+     ("m.impl.*".toList, { module := (some "m.impl".toList), origin := (some "/proj/m/impl.py".toList), pySource := true, builtinLoader := false, blacklisted := false, inPip := false, inStdlib := false }),
+     ("m.impl.f".toList, { module := (some "m.impl".toList), origin := (some "/proj/m/impl.py".toList), pySource := true, builtinLoader := false, blacklisted := false, inPip := false, inStdlib := false }),
+     ("m.impl.f.*".toList, { module := (some "m.impl".toList), origin := (some "/proj/m/impl.py".toList), pySource := true, builtinLoader := false, blacklisted := false, inPip := false, inStdlib := false })],
+    excluded := [],
+    target :=
+    { origin := "target.py".toList, derived := (some "target".toList), isInit := false,
+      body :=
+      [.importFrom (some "m".toList) 0 [⟨"f".toList, none⟩] "".toList false true,
+     .funcDef "caller".toList ⟨[], ["o".toList], none, [], none⟩
+      [(.ret [(.call (.name "f".toList .load) [(.name "o".toList .load)] [] [])])]
+      [] false] },
+    files :=
+  [{ origin := "/proj/m/__init__.py".toList, derived := (some "m".toList), isInit := true,
+      body :=
+      [.importFrom (some "impl".toList) 1 [⟨"f".toList, none⟩] "m.impl".toList true true] },
+   { origin := "/proj/m/impl.py".toList, derived := (some "m.impl".toList), isInit := false,
+      body :=
+      [.funcDef "f".toList ⟨[], ["x".toList], none, [], none⟩
+      [(.ret [(.attr (.name "x".toList .load) "from_package".toList .load)])]
+      [] false] }] }
+
+def proj_staleTwinDoc : ResultsDoc :=
+  [("caller".toList, ⟨["o".toList, "o.from_package".toList], [], [], ["f()".toList]⟩)]
+
+/-- seeded C06-m9's shape, the target given by its ABSOLUTE path: `target: from a import fa`,
+`a: from target import base; fa calls base` — the walk meets `/proj/target.py` again -/
+def proj_cycleAbs : Project :=
+  { env := envE, builtins := ["print".toList],
+    mods :=
+    [("a".toList, ⟨false, true, true⟩),
+     ("a.*".toList, ⟨false, true, false⟩),
+     ("a.fa".toList, ⟨false, true, false⟩),
+     ("a.fa.*".toList, ⟨false, true, false⟩),
+     ("target".toList, ⟨false, true, true⟩),
+     ("target.*".toList, ⟨false, true, false⟩),
+     ("target.base".toList, ⟨false, true, false⟩),
+     ("target.base.*".toList, ⟨false, true, false⟩)],
+    quals :=
+    [("a".toList, { module := (some "a".toList), origin := (some "/proj/a.py".toList), pySource := true, builtinLoader := false, blacklisted := false, inPip := false, inStdlib := false }),
+     ("a.*".toList, { module := (some "a".toList), origin := (some "/proj/a.py".toList), pySource := true, builtinLoader := false, blacklisted := false, inPip := false, inStdlib := false }),
+     ("a.fa".toList, { module := (some "a".toList), origin := (some "/proj/a.py".toList), pySource := true, builtinLoader := false, blacklisted := false, inPip := false, inStdlib := false }),
+     ("a.fa.*".toList, { module := (some "a".toList), origin := (some "/proj/a.py".toList), pySource := true, builtinLoader := false, blacklisted := false, inPip := false, inStdlib := false }),
+     ("target".toList, { module := (some "target".toList), origin := (some "/proj/target.py".toList), pySource := true, builtinLoader := false, blacklisted := false, inPip := false, inStdlib := false }),
+     ("target.*".toList, { module := (some "target".toList), origin := (some "/proj/target.py".toList), pySource := true, builtinLoader := false, blacklisted := false, inPip := false, inStdlib := false }),
+     ("target.base".toList, { module := (some "target".toList), origin := (some "/proj/target.py".toList), pySource := true, builtinLoader := false, blacklisted := false, inPip := false, inStdlib := false }),
+     ("target.base.*".toList, { module := (some "target".toList), origin := (some "/proj/target.py".toList), pySource := true, builtinLoader := false, blacklisted := false, inPip := false, inStdlib := false })],
+    excluded := [],
+    target :=
+    { origin := "/proj/target.py".toList, derived := (some "target".toList), isInit := false,
+      body :=
+      [.importFrom (some "a".toList) 0 [⟨"fa".toList, none⟩] "".toList false true,
+     .funcDef "base".toList ⟨[], ["b".toList], none, [], none⟩
+      [(.ret [(.attr (.name "b".toList .load) "base_attr".toList .load)])]
+      [] false,
+     .funcDef "caller".toList ⟨[], ["o".toList], none, [], none⟩
+      [(.ret [(.call (.name "fa".toList .load) [(.name "o".toList .load)] [] [])])]
+      [] false] },
+    files :=
+  [{ origin := "/proj/a.py".toList, derived := (some "a".toList), isInit := false,
+      body :=
+      [.importFrom (some "target".toList) 0 [⟨"base".toList, none⟩] "".toList false true,
+     .funcDef "fa".toList ⟨[], ["x".toList], none, [], none⟩
+      [(.ret [(.call (.name "base".toList .load) [(.attr (.name "x".toList .load) "left".toList .load)] [] [])])]
+      [] false] },
+   { origin := "/proj/target.py".toList, derived := (some "target".toList), isInit := false,
+      body :=
+      [.importFrom (some "a".toList) 0 [⟨"fa".toList, none⟩] "".toList false true,
+     .funcDef "base".toList ⟨[], ["b".toList], none, [], none⟩
+      [(.ret [(.attr (.name "b".toList .load) "base_attr".toList .load)])]
+      [] false,
+     .funcDef "caller".toList ⟨[], ["o".toList], none, [], none⟩
+      [(.ret [(.call (.name "fa".toList .load) [(.name "o".toList .load)] [] [])])]
+      [] false] }] }
+
+def proj_cycleAbsDoc : ResultsDoc :=
+  [("base".toList, ⟨["b.base_attr".toList], [], [], []⟩),
+   ("caller".toList, ⟨["o".toList, "o.left".toList, "x.left.base_attr".toList], [], [], ["fa()".toList]⟩)]
+
+/-- …and with the same call text `helper(b)` in the target's `caller` and in the called-back `base`,
+absolute target path -/
+def proj_cycleAbsSeen : Project :=
+  { env := envE, builtins := ["print".toList],
+    mods :=
+    [("a".toList, ⟨false, true, true⟩),
+     ("a.*".toList, ⟨false, true, false⟩),
+     ("a.fa".toList, ⟨false, true, false⟩),
+     ("a.fa.*".toList, ⟨false, true, false⟩),
+     ("target".toList, ⟨false, true, true⟩),
+     ("target.*".toList, ⟨false, true, false⟩),
+     ("target.base".toList, ⟨false, true, false⟩),
+     ("target.base.*".toList, ⟨false, true, false⟩)],
+    quals :=
+    [("a".toList, { module := (some "a".toList), origin := (some "/proj/a.py".toList), pySource := true, builtinLoader := false, blacklisted := false, inPip := false, inStdlib := false }),
+     ("a.*".toList, { module := (some "a".toList), origin := (some "/proj/a.py".toList), pySource := true, builtinLoader := false, blacklisted := false, inPip := false, inStdlib := false }),
+     ("a.fa".toList, { module := (some "a".toList), origin := (some "/proj/a.py".toList), pySource := true, builtinLoader := false, blacklisted := false, inPip := false, inStdlib := false }),
+     ("a.fa.*".toList, { module := (some "a".toList), origin := (some "/proj/a.py".toList), pySource := true, builtinLoader := false, blacklisted := false, inPip := false, inStdlib := false }),
+     ("target".toList, { module := (some "target".toList), origin := (some "/proj/target.py".toList), pySource := true, builtinLoader := false, blacklisted := false, inPip := false, inStdlib := false }),
+     ("target.*".toList, { module := (some "target".toList), origin := (some "/proj/target.py".toList), pySource := true, builtinLoader := false, blacklisted := false, inPip := false, inStdlib := false }),
+     ("target.base".toList, { module := (some "target".toList), origin := (some "/proj/target.py".toList), pySource := true, builtinLoader := false, blacklisted := false, inPip := false, inStdlib := false }),
+     ("target.base.*".toList, { module := (some "target".toList), origin := (some "/proj/target.py".toList), pySource := true, builtinLoader := false, blacklisted := false, inPip := false, inStdlib := false })],
+    excluded := [],
+    target :=
+    { origin := "/proj/target.py".toList, derived := (some "target".toList), isInit := false,
+      body :=
+      [.importFrom (some "a".toList) 0 [⟨"fa".toList, none⟩] "".toList false true,
+     .funcDef "helper".toList ⟨[], ["b".toList], none, [], none⟩
+      [(.ret [(.attr (.name "b".toList .load) "h_attr".toList .load)])]
+      [] false,
+     .funcDef "base".toList ⟨[], ["b".toList], none, [], none⟩
+      [(.other "Expr".toList [(.call (.name "helper".toList .load) [(.name "b".toList .load)] [] [])]), (.ret [(.attr (.name "b".toList .load) "base_attr".toList .load)])]
+      [] false,
+     .funcDef "caller".toList ⟨[], ["b".toList, "c".toList], none, [], none⟩
+      [(.other "Expr".toList [(.call (.name "helper".toList .load) [(.name "b".toList .load)] [] [])]), (.ret [(.call (.name "fa".toList .load) [(.name "c".toList .load)] [] [])])]
+      [] false] },
+    files :=
+  [{ origin := "/proj/a.py".toList, derived := (some "a".toList), isInit := false,
+      body :=
+      [.importStmt [⟨"target".toList, none⟩],
+     .funcDef "fa".toList ⟨[], ["b".toList], none, [], none⟩
+      [(.ret [(.call (.attr (.name "target".toList .load) "base".toList .load) [(.name "b".toList .load)] [] [])])]
+      [] false] },
+   { origin := "/proj/target.py".toList, derived := (some "target".toList), isInit := false,
+      body :=
+      [.importFrom (some "a".toList) 0 [⟨"fa".toList, none⟩] "".toList false true,
+     .funcDef "helper".toList ⟨[], ["b".toList], none, [], none⟩
+      [(.ret [(.attr (.name "b".toList .load) "h_attr".toList .load)])]
+      [] false,
+     .funcDef "base".toList ⟨[], ["b".toList], none, [], none⟩
+      [(.other "Expr".toList [(.call (.name "helper".toList .load) [(.name "b".toList .load)] [] [])]), (.ret [(.attr (.name "b".toList .load) "base_attr".toList .load)])]
+      [] false,
+     .funcDef "caller".toList ⟨[], ["b".toList, "c".toList], none, [], none⟩
+      [(.other "Expr".toList [(.call (.name "helper".toList .load) [(.name "b".toList .load)] [] [])]), (.ret [(.call (.name "fa".toList .load) [(.name "c".toList .load)] [] [])])]
+      [] false] }] }
+
+def proj_cycleAbsSeenDoc : ResultsDoc :=
+  [("helper".toList, ⟨["b.h_attr".toList], [], [], []⟩),
+   ("base".toList, ⟨["b".toList, "b.base_attr".toList, "b.h_attr".toList], [], [], ["helper()".toList]⟩),
+   ("caller".toList, ⟨["b".toList, "b.h_attr".toList, "c".toList, "c.base_attr".toList], [], [], ["fa()".toList, "helper()".toList]⟩)]
+
+/-- …the same source tree with the target named `target.py` -/
+def proj_cycleRelSeen : Project :=
+  { env := envE, builtins := ["print".toList],
+    mods :=
+    [("a".toList, ⟨false, true, true⟩),
+     ("a.*".toList, ⟨false, true, false⟩),
+     ("a.fa".toList, ⟨false, true, false⟩),
+     ("a.fa.*".toList, ⟨false, true, false⟩),
+     ("target".toList, ⟨false, true, true⟩),
+     ("target.*".toList, ⟨false, true, false⟩),
+     ("target.base".toList, ⟨false, true, false⟩),
+     ("target.base.*".toList, ⟨false, true, false⟩)],
+    quals :=
+    [("a".toList, { module := (some "a".toList), origin := (some "/proj/a.py".toList), pySource := true, builtinLoader := false, blacklisted := false, inPip := false, inStdlib := false }),
+     ("a.*".toList, { module := (some "a".toList), origin := (some "/proj/a.py".toList), pySource := true, builtinLoader := false, blacklisted := false, inPip := false, inStdlib := false }),
+     ("a.fa".toList, { module := (some "a".toList), origin := (some "/proj/a.py".toList), pySource := true, builtinLoader := false, blacklisted := false, inPip := false, inStdlib := false }),
+     ("a.fa.*".toList, { module := (some "a".toList), origin := (some "/proj/a.py".toList), pySource := true, builtinLoader := false, blacklisted := false, inPip := false, inStdlib := false }),
+     ("target".toList, { module := (some "target".toList), origin := (some "/proj/target.py".toList), pySource := true, builtinLoader := false, blacklisted := false, inPip := false, inStdlib := false }),
+     ("target.*".toList, { module := (some "target".toList), origin := (some "/proj/target.py".toList), pySource := true, builtinLoader := false, blacklisted := false, inPip := false, inStdlib := false }),
+     ("target.base".toList, { module := (some "target".toList), origin := (some "/proj/target.py".toList), pySource := true, builtinLoader := false, blacklisted := false, inPip := false, inStdlib := false }),
+     ("target.base.*".toList, { module := (some "target".toList), origin := (some "/proj/target.py".toList), pySource := true, builtinLoader := false, blacklisted := false, inPip := false, inStdlib := false })],
+    excluded := [],
+    target :=
+    { origin := "target.py".toList, derived := (some "target".toList), isInit := false,
+      body :=
+      [.importFrom (some "a".toList) 0 [⟨"fa".toList, none⟩] "".toList false true,
+     .funcDef "helper".toList ⟨[], ["b".toList], none, [], none⟩
+      [(.ret [(.attr (.name "b".toList .load) "h_attr".toList .load)])]
+      [] false,
+     .funcDef "base".toList ⟨[], ["b".toList], none, [], none⟩
+      [(.other "Expr".toList [(.call (.name "helper".toList .load) [(.name "b".toList .load)] [] [])]), (.ret [(.attr (.name "b".toList .load) "base_attr".toList .load)])]
+      [] false,
+     .funcDef "caller".toList ⟨[], ["b".toList, "c".toList], none, [], none⟩
+      [(.other "Expr".toList [(.call (.name "helper".toList .load) [(.name "b".toList .load)] [] [])]), (.ret [(.call (.name "fa".toList .load) [(.name "c".toList .load)] [] [])])]
+      [] false] },
+    files :=
+  [{ origin := "/proj/a.py".toList, derived := (some "a".toList), isInit := false,
+      body :=
+      [.importStmt [⟨"target".toList, none⟩],
+     .funcDef "fa".toList ⟨[], ["b".toList], none, [], none⟩
+      [(.ret [(.call (.attr (.name "target".toList .load) "base".toList .load) [(.name "b".toList .load)] [] [])])]
+      [] false] },
+   { origin := "/proj/target.py".toList, derived := (some "target".toList), isInit := false,
+      body :=
+      [.importFrom (some "a".toList) 0 [⟨"fa".toList, none⟩] "".toList false true,
+     .funcDef "helper".toList ⟨[], ["b".toList], none, [], none⟩
+      [(.ret [(.attr (.name "b".toList .load) "h_attr".toList .load)])]
+      [] false,
+     .funcDef "base".toList ⟨[], ["b".toList], none, [], none⟩
+      [(.other "Expr".toList [(.call (.name "helper".toList .load) [(.name "b".toList .load)] [] [])]), (.ret [(.attr (.name "b".toList .load) "base_attr".toList .load)])]
+      [] false,
+     .funcDef "caller".toList ⟨[], ["b".toList, "c".toList], none, [], none⟩
+      [(.other "Expr".toList [(.call (.name "helper".toList .load) [(.name "b".toList .load)] [] [])]), (.ret [(.call (.name "fa".toList .load) [(.name "c".toList .load)] [] [])])]
+      [] false] }] }
+
+def proj_cycleRelSeenDoc : ResultsDoc :=
+  [("helper".toList, ⟨["b.h_attr".toList], [], [], []⟩),
+   ("base".toList, ⟨["b".toList, "b.base_attr".toList, "b.h_attr".toList], [], [], ["helper()".toList]⟩),
+   ("caller".toList, ⟨["b".toList, "b.h_attr".toList, "c".toList, "c.base_attr".toList, "c.h_attr".toList], [], [], ["fa()".toList, "helper()".toList]⟩)]
+
+/-- what `parse_and_analyse_file` leaves: the keys of `import_irs`, their origins, the target's path -/
+def walkView (P : Project) : Option (List Str × List Str × Str) :=
+  match analyseAll P with
+  | .ok (t, irs, _) => some (irs.map (·.key), irs.map (·.origin), t.origin)
+  | _ => none
+
+/-- TESTS (kernel evaluation of the whole multi-file model; each document is the one the real CLI
+prints for that tree). The star chain binds `helper` to `pkg.sub.util`'s definition (`o.sub_util`),
+not to the decoy's. -/
+theorem pipeline2_test_star_chain_two_levels : run2 proj_starChain = .ok (proj_starChainDoc, []) :=
+  eq_of_outcomeIs2 (by decide +kernel)
+
+/-- the package is followed, not the stale module (`o.from_package`) -/
+theorem pipeline2_test_package_next_to_stale_module : run2 proj_staleTwin = .ok (proj_staleTwinDoc, []) :=
+  eq_of_outcomeIs2 (by decide +kernel)
+
+/-- an import cycle through a target named by its absolute path: the target is analysed a second
+time (key `target` of `import_irs`), the call-back resolves, the answer is the single-file one -/
+theorem pipeline2_test_cycle_through_absolute_target :
+    run2 proj_cycleAbs = .ok (proj_cycleAbsDoc, []) ∧
+    walkView proj_cycleAbs = some (["a".toList, "target".toList], ["/proj/a.py".toList, "/proj/target.py".toList],
+      "/proj/target.py".toList) := by
+  refine ⟨eq_of_outcomeIs2 (by decide +kernel), ?_⟩
+  decide +kernel
+
+/-- **`pipeline2_cex_absolute_target_cycle_merges_calls`** — the known finding `import-cycle-through-
+target-changes-answer:…:target-spelled-absolute`: the same tree, target named absolutely vs relatively.
+Under the absolute path the copy's `helper(b)` is the target's own equality class (already seen) and
+the copy's `base` was never simplified: `c.h_attr` is lost. -/
+theorem pipeline2_cex_absolute_target_cycle_merges_calls :
+    run2 proj_cycleAbsSeen = .ok (proj_cycleAbsSeenDoc, []) ∧
+    run2 proj_cycleRelSeen = .ok (proj_cycleRelSeenDoc, []) ∧
+    ((Dict.get? proj_cycleAbsSeenDoc "caller".toList).map fun e => decide ("c.h_attr".toList ∈ e.gets)) = some false ∧
+    ((Dict.get? proj_cycleRelSeenDoc "caller".toList).map fun e => decide ("c.h_attr".toList ∈ e.gets)) = some true := by
+  refine ⟨eq_of_outcomeIs2 (by decide +kernel), eq_of_outcomeIs2 (by decide +kernel), by decide, by decide⟩
+
+/-- the hypotheses of `pipeline2_walk_complete` / `pipeline2_import_irs_complete` hold for the cycle
+project (one module per origin), and the conclusion names the target's own key -/
+example : ∃ t irs ds, analyseAll proj_cycleAbs = .ok (t, irs, ds) ∧ "target".toList ∈ keysOf irs := by
+  have h2 := pipeline2_test_cycle_through_absolute_target.2
+  unfold walkView at h2
+  cases h : analyseAll proj_cycleAbs with
+  | ok x =>
+    obtain ⟨t, irs, ds⟩ := x
+    refine ⟨t, irs, ds, rfl, ?_⟩
+    rw [h] at h2
+    simp only [Option.some.injEq, Prod.mk.injEq] at h2
+    simp only [keysOf, h2.1]
+    decide
+  | fatal a b => rw [h] at h2; cases h2
+  | crash e => rw [h] at h2; cases h2
 
 end Rattr.C06
